@@ -10,24 +10,31 @@
    TLC (Trace_Driver) re-derives each configuration from its index, replays SyltDriver for it, derives the observation
    classes from the raw facts and prints one REJECT line per non-conforming record (per-record clauses and the
    relational ones: same bytes on every sink, one require in front of the unchanged program, --no-std neutral).
-3. Negative controls on the recorded trace: a flipped exit code, a truncated file digest, a dropped error block,
-   a second require and a changed stdout digest must each be rejected, and nothing else.
-quick = the whole configuration space once; thorough = x 3 programs per class x 4 command-line spellings.
+3. Negative controls (binding demonstration): the whole universe is recorded a second time with, for a few
+   configurations per kind, the world left behind by the command changed the way a defective driver would have left it
+   (exit status flipped, errors not / partly / twice printed, FILE half-written / truncated / one byte short, an extra
+   byte on `-o -`, the require twice / missing / late / of another module, --no-std changing the program, the program
+   never run). TLC must reject every such record with the verdict of its clause and must reject nothing else.
+quick = the whole configuration space x 3 programs per class x 2 command-line spellings; thorough = x 3 x 12.
 """
-import copy
 import json
 import os
+import random
 import subprocess
 import vlib
 
 PID = "C20"
-SPEC_ACTIONS = ("ParseArgs", "CompileOk", "CompileErrN", "RunOk", "RunFail", "WriteStdout", "WriteStdoutFail",
+SPEC_ACTIONS = ("ParseArgs", "CompileOk", "CompileErrN", "RunOk", "RunFail", "WriteStdout", "WriteStdoutFail", "WriteStdoutLost", "OutputFailEarly",
                 "WriteFileOk", "WriteFileFail", "PrintErrors", "Exit")
 BAD_ACTIONS = ("BadPartialWrite", "BadSilentExit", "BadExitZero")
 MINILUA = os.path.join(vlib.ROOT, "minilua")
 # The property requires a non-zero exit, every error printed and nothing half-written. A Rust panic message that names
 # the failure satisfies these words; C20_STRICT_PANIC=1 makes a panic as the only diagnostic a violation (panic-message).
 PANIC_OK = "0" if os.environ.get("C20_STRICT_PANIC") == "1" else "1"
+# `sylt x.sy -o - > /dev/full`: the property fixes the exit status by "compilation succeeded" and speaks of FILE only, so
+# the status of that one case is left open; C20_STRICT_STDOUT=1 requires a non-zero status there as for an unwritable FILE.
+STRICT_STDOUT = "1" if os.environ.get("C20_STRICT_STDOUT") == "1" else "0"
+TIERS = {"quick": (3, 2), "thorough": (3, 12)}       # (program variants per class, command-line spellings)
 
 
 def build_lua():
@@ -87,6 +94,8 @@ def spec_model(wd, ev):
     base = {}
     for _, p in r.records:          # one line per behaviour; several behaviours per configuration differ in the error count
         base.setdefault(p["base"], p)
+        if base[p["base"]]["cfg"] != p["cfg"]:
+            vlib.tool_error("two REPLAY records with the same index carry different configurations: %r" % p["base"])
     n = r.coverage.get("Init", (0, 0))[0]
     if not base or sorted(base) != list(range(len(base))) or len(base) != n:
         vlib.tool_error("REPLAY records do not cover the configuration space (%d records, %d initial states)" % (len(base), n))
@@ -97,6 +106,11 @@ def spec_model(wd, ev):
                        "invariants": ["TypeOK", "ExitIffSuccess", "ErrorsPrinted", "AllOrNothing", "SinksWhole", "RunOutput",
                                       "Progress", "Bounded"],
                        "assumes": ["UniverseWellFormed", "SinkIndependence", "NoStdNeutralForStdFree", "NoStdRejectsStdUsers"]})
+    # the stricter reading (an unwritable stdout must be reported) is a consistent contract too
+    st = vlib.tlc("MC_Driver", cfg="MC_Driver_strict.cfg", wd=wd, timeout=900, workers=2, tags=(), out_file=os.path.join(wd, "tlc-MC_Driver_strict.out"))
+    vlib.require_tlc_ok(st, "SyltDriver, StrictSink = TRUE")
+    ev.add("states", st.distinct)
+    ev.add("transitions", st.generated)
     # spec-level negative controls: a defective machine must break the matching clause of the contract
     broken = {}
     for cfg, inv in (("MC_Driver_faulty.cfg", "AllOrNothing"), ("MC_Driver_faulty2.cfg", "ErrorsPrinted"),
@@ -119,12 +133,16 @@ def make_cases(base, nv, ns):
     return cases
 
 
-def validate(wd, name, trace, nv, ns, workers=None):
-    r = vlib.tlc("MC_TraceDriver", cfg="MC_TraceDriver.cfg", wd=wd, env={"TRACE": trace, "V": nv, "S": ns, "PANIC_OK": PANIC_OK},
+def validate(wd, name, trace, nv, ns, n, workers=None):
+    r = vlib.tlc("MC_TraceDriver", cfg="MC_TraceDriver.cfg", wd=wd, env={"TRACE": trace, "V": nv, "S": ns, "PANIC_OK": PANIC_OK, "STRICT_STDOUT": STRICT_STDOUT},
                  tags=("REJECT",), workers=workers or min(8, vlib.NCPU), timeout=1500,
                  out_file=os.path.join(wd, "tlc-" + name + ".out"))
     vlib.require_tlc_ok(r, "Trace_Driver/" + name)
     rejects = {p["rec"]: p for (_, p) in r.records}   # ENABLED re-evaluates PrintT: dedupe
+    cov = {a: r.coverage.get(a, (0, 0))[1] for a in ("TraceInit", "TraceStep", "TraceAccept", "TraceReject")}
+    if cov["TraceInit"] != n or cov["TraceAccept"] + cov["TraceReject"] != n or cov["TraceReject"] != len(rejects):
+        vlib.tool_error("vacuity: Trace_Driver/%s did not take every record to a verdict (%r, %d records, %d REJECT lines)" % (
+            name, cov, n, len(rejects)))
     return r, rejects
 
 
@@ -152,3 +170,203 @@ def describe(rec, rej, what):
         "hang": "the command did not finish within the timeout",
     }.get(what, what)
     return "`%s` (%s): %s" % (cmd, world, detail)
+
+
+def record(wd, name, cases, sylt, lua, seed=None):
+    cf = os.path.join(wd, name + "-cases.ndjson")
+    trace = os.path.join(wd, name + "-trace.ndjson")
+    vlib.write_ndjson(cf, cases)
+    env = {"VERIF_SEED": str(seed)} if seed is not None else None
+    p = vlib.harness("c20", ["record", cf, sylt, lua, os.path.join(wd, "scratch-" + name), trace], env=env, timeout=1500)
+    recs = vlib.read_ndjson(trace)
+    if len(recs) != len(cases) or p.stdout.strip() != str(len(cases)):
+        vlib.tool_error("recorder wrote %d records for %d cases" % (len(recs), len(cases)))
+    return trace, recs
+
+
+# ------------------------------------------------------------------------------------------------ negative controls
+def _rejected(b):
+    return b["eff"] == "rej"
+
+
+# kind -> (which configurations the stub makes sense for (REPLAY record b), the verdict TLC must give)
+STUBS = [
+    ("exit0", lambda b: _rejected(b), "exit"),
+    ("exit1", lambda b: b["success"], "exit"),
+    ("silent", lambda b: _rejected(b) and b["cfg"]["path"] != "unwritable", "errors-missing"),
+    ("first-only", lambda b: b["cfg"]["pk"] == "rej" and b["cfg"]["pn"] >= 2 and not b["cfg"]["std"] and b["cfg"]["path"] != "unwritable",
+     "errors-missing"),
+    ("twice", lambda b: _rejected(b) and b["cfg"]["path"] != "unwritable", "errors-extra"),
+    ("partial-file", lambda b: _rejected(b) and b["cfg"]["mode"] == "file" and b["cfg"]["path"] in ("absent", "existing"), "partial-file"),
+    ("truncate-file", lambda b: _rejected(b) and b["cfg"]["mode"] == "file" and b["cfg"]["path"] == "existing", "partial-file"),
+    ("short-file", lambda b: b["success"] and b["cfg"]["mode"] == "file", "partial-file"),
+    ("newline", lambda b: b["success"] and b["cfg"]["mode"] == "stdout", "partial-stdout"),
+    ("newline", lambda b: b["success"] and b["cfg"]["mode"] == "stdout", "bytes-differ"),
+    ("req2", lambda b: b["success"] and b["cfg"]["req"] and b["cfg"]["mode"] in ("file", "stdout"), "require"),
+    ("req0", lambda b: b["success"] and b["cfg"]["req"] and b["cfg"]["mode"] in ("file", "stdout"), "require"),
+    ("req-late", lambda b: b["success"] and b["cfg"]["req"] and b["cfg"]["mode"] in ("file", "stdout"), "require"),
+    ("req-other", lambda b: b["success"] and b["cfg"]["req"] and b["cfg"]["mode"] in ("file", "stdout"), "require"),
+    ("nostd", lambda b: b["success"] and b["eff"] == "acc" and not b["cfg"]["std"] and b["cfg"]["mode"] in ("file", "stdout"), "no-std"),
+    ("run-skip", lambda b: b["cfg"]["mode"] == "run" and b["cfg"]["std"] and b["eff"] in ("acc", "rt"), "run-output"),
+]
+PER_STUB = 2
+
+
+def negative_controls(wd, base, cases, nv, ns, sylt, lua, main_rejects, ev):
+    rng = random.Random(vlib.seed() * 7919 + 20)
+    neg = [dict(c) for c in cases]
+    assigned = {}                               # idx -> (kind, expected verdict)
+    for kind, pred, want in STUBS:
+        cand = [c for c in neg if c["idx"] not in assigned and c["idx"] not in main_rejects and pred(base[c["base"]])]
+        if len(cand) < PER_STUB:
+            vlib.tool_error("vacuity: no configuration left for the negative control %s" % kind)
+        for c in rng.sample(cand, PER_STUB):
+            c["stub"] = kind
+            assigned[c["idx"]] = (kind, want)
+    trace, recs = record(wd, "neg", neg, sylt, lua)
+    r, rejects = validate(wd, "negative-controls", trace, nv, ns, len(neg), workers=4)
+    ev.add("states", r.distinct)
+    ev.add("transitions", r.generated)
+    caught = {}
+    for idx, (kind, want) in sorted(assigned.items()):
+        rec = recs[idx - 1]
+        if not rec["stub_applied"]:
+            vlib.tool_error("negative control %s could not be applied to record %d (%s)" % (kind, idx, " ".join(rec["argv"])))
+        whats = rejects.get(idx, {}).get("whats", [])
+        if want not in whats:
+            vlib.tool_error("negative control accepted: record %d (`sylt %s`) with stub %s is not rejected as %s (verdicts: %s)" % (
+                idx, " ".join(rec["argv"]), kind, want, whats or "none"))
+        caught.setdefault("%s -> %s" % (kind, want), []).append(idx)
+    # ... and nothing else is rejected: an unstubbed record may only fail a relational clause against a stubbed partner
+    for idx, rej in sorted(rejects.items()):
+        if idx in assigned or idx in main_rejects:
+            continue
+        partners = set(rej["partners"].values())
+        if not (partners & set(assigned)) or not set(rej["whats"]) <= {"bytes-differ", "require", "no-std"}:
+            vlib.tool_error("negative-control run rejects the unstubbed record %d (`sylt %s`): %s" % (
+                idx, " ".join(recs[idx - 1]["argv"]), rej["whats"]))
+    ev.set(negative_controls={k: len(v) for k, v in sorted(caught.items())},
+           negative_controls_rejected=len(assigned),
+           negative_control_records=len(recs),
+           negative_control_collateral=len([i for i in rejects if i not in assigned and i not in main_rejects]))
+
+
+# ------------------------------------------------------------------------------------------------ vacuity of the recording
+def recording_guards(recs, ns):
+    def count(pred):
+        return sum(1 for r in recs if pred(r))
+    guards = {
+        "exit status 0": count(lambda r: r["exit"] == 0),
+        "exit status non-zero": count(lambda r: r["exit"] != 0),
+        "rejected programs with >= 2 errors, each printed": count(lambda r: len(r["ref"]["errors"]) >= 2 and len(r["blocks"]) == len(r["ref"]["errors"])),
+        "errors in an imported file": count(lambda r: any(b["file"] != "main.sy" for b in r["blocks"])),
+        "child lua received the complete program": count(lambda r: r["cfg"]["mode"] == "run" and r["lua"]["started"] and r["lua"]["chunk_len"] > 0
+                                                         and r["lua"]["chunk_digest"] == r["ref"]["lua_digest"]),
+        "run failed and lua's message was printed": count(lambda r: r["lua"]["err_len"] > 0 and r["lua"]["msg_printed"] and r["exit"] != 0),
+        "run output present on stdout": count(lambda r: r["cfg"]["mode"] == "run" and r["ref"]["run"]["out_len"] > 0 and r["so"]["has_out"]),
+        "FILE written completely": count(lambda r: r["cfg"]["mode"] == "file" and r["emit"]["present"] and r["emit"]["digest"] == r["ref"]["lua_digest"]),
+        "existing FILE left untouched": count(lambda r: r["cfg"]["path"] == "existing" and r["after"] == r["before"]),
+        "existing FILE replaced": count(lambda r: r["cfg"]["path"] == "existing" and r["after"]["digest"] != r["before"]["digest"]),
+        "unwritable FILE, non-zero exit": count(lambda r: r["cfg"]["path"] in ("missing_parent", "is_directory", "unwritable_device") and r["exit"] != 0
+                                                and r["ref"]["class"] == "ok"),
+        "program on stdout": count(lambda r: r["cfg"]["mode"] == "stdout" and r["emit"]["present"]),
+        "require executed exactly once": count(lambda r: r["cfg"]["req"] and r["emit"]["present"] and r["emit"]["run"]["requires"] == ["c20mod"]),
+        "--no-std turned a std-using program into a rejected one": count(lambda r: r["cfg"]["std"] and r["cfg"]["nostd"] and r["cfg"]["pk"] != "rej"
+                                                                         and r["ref"]["class"] == "err"),
+        "std-free program emitted with and without --no-std": count(lambda r: not r["cfg"]["std"] and r["emit"]["present"]),
+    }
+    if ns > 1:
+        guards["command lines spelled differently"] = len({" ".join(r["argv"]) for r in recs if r["spell"] > 0} - {" ".join(r["argv"]) for r in recs if r["spell"] == 0})
+    for k, v in guards.items():
+        if v == 0:
+            vlib.tool_error("vacuity: the recording contains no case of: " + k)
+    return guards
+
+
+def add_verdicts(verdicts, recs, rejects, nv, ns, only=None):
+    for idx, rej in sorted(rejects.items()):
+        if only is not None and idx != only:
+            continue
+        rec = recs[idx - 1]
+        for what in sorted(rej["whats"]):
+            verdicts.add(signature(rec["cfg"], what), describe(rec, rej, what),
+                         {"case": {k: rec[k] for k in ("idx", "base", "v", "spell", "cfg")}, "nv": nv, "ns": ns, "seed": vlib.seed(),
+                          "argv": rec["argv"], "files": rec["files"], "exit": rec["exit"], "stdout_head": rec["so"]["head"],
+                          "stderr_head": rec["se"]["text"], "what": what, "reject": rej})
+
+
+def run(ctx):
+    tier = ctx.tier
+    wd = vlib.workdir(PID)
+    ev = vlib.Evidence(PID, tier, "model_checking")
+    verdicts = vlib.Verdicts(PID)
+    vlib.build_harness(["c20"])
+    sylt = vlib.build_sylt_binary(wd)
+    lua = build_lua()
+
+    # 1. the specification on its own; its REPLAY records are the configurations
+    base = spec_model(wd, ev)
+
+    if ctx.replay:
+        # the relational clauses need the partner records: the universe of the original run is recorded again
+        # (same seed, hence the same command lines) and only the verdicts of the one case are reported
+        rp = json.load(open(ctx.replay))["replay"]
+        nv, ns, one = rp["nv"], rp["ns"], rp["case"]["idx"]
+        cases = make_cases(base, nv, ns)
+        if cases[one - 1]["cfg"] != rp["case"]["cfg"]:
+            vlib.tool_error("the replay file's configuration is not configuration %d of the current universe" % one)
+        trace, recs = record(wd, "replay", cases, sylt, lua, seed=rp.get("seed"))
+        r, rejects = validate(wd, "replay", trace, nv, ns, len(cases), workers=4)
+        add_verdicts(verdicts, recs, rejects, nv, ns, only=one)
+        ev.add("states", r.distinct)
+        ev.add("transitions", r.generated)
+        ev.set(traces_validated_against_impl=len(recs), samples=[sample_of(recs[one - 1])], replayed_record=one)
+        rc = verdicts.finish()
+        ev.violations = len(verdicts.violations)
+        ev.write()
+        return rc
+
+    # 2. conformance: every configuration (x variants x spellings) against the built binary
+    nv, ns = TIERS[tier]
+    cases = make_cases(base, nv, ns)
+    trace, recs = record(wd, "main", cases, sylt, lua)
+    r, rejects = validate(wd, "main", trace, nv, ns, len(cases))
+    add_verdicts(verdicts, recs, rejects, nv, ns)
+    guards = recording_guards(recs, ns)
+    ev.add("states", r.distinct)
+    ev.add("transitions", r.generated)
+    open_status = [x for x in recs if x["cfg"]["path"] == "unwritable" and x["ref"]["class"] == "ok"]
+    ev.set(traces_validated_against_impl=len(recs), evaluations=len(recs), programs=len({vlib.sha(x["files"]) for x in recs}),
+           distinct_nontrivial=len({vlib.sha([x["argv"], x["files"], x["cfg"]["path"]]) for x in recs}),
+           rule="every configuration of SyltDriver's universe (8 sinks x --require x --no-std x 7 program classes x uses-std = %d), "
+                "x %d program variants per class x %d command-line spellings (spelling 0 canonical, the others seeded random: "
+                "-o/--output/--output=F/-oF, --require/-r/=, argument order); a case is one run of the built sylt binary in its own scratch "
+                "directory; distinct = different (argv, program files, state of the output path)" % (len(base), nv, ns),
+           exhaustive=True,
+           trace_validation={"records": len(recs), "rejected": len(rejects), "tlc_states": r.distinct, "tlc_wall_s": round(r.wall_s, 1),
+                             "actions": {k: v[1] for k, v in r.coverage.items() if k.startswith("Trace")}},
+           recording_guards=guards,
+           exit_codes={str(k): sum(1 for x in recs if x["exit"] == k) for k in sorted({x["exit"] for x in recs})},
+           unwritable_stdout_status_left_open={"records": len(open_status), "exit_0": sum(1 for x in open_status if x["exit"] == 0),
+                                               "strict": STRICT_STDOUT == "1"},
+           panic_is_diagnostic=PANIC_OK == "1")
+
+    # 3. negative controls: the quick universe, recorded again with stubbed worlds
+    ncases = make_cases(base, 1, 1)
+    nmain = {i for i in rejects if i <= len(ncases)}     # variant 0 / spelling 0 is a prefix of every tier's universe
+    negative_controls(wd, base, ncases, 1, 1, sylt, lua, nmain, ev)
+
+    picks = [i for i in (1, 3, 68, 150, 200, 262, 330, 425, len(recs) - 2) if 0 < i <= len(recs)]
+    ev.set(samples=[sample_of(recs[i - 1]) for i in picks], known_findings_hit=verdicts.known_hits)
+    ev.assume("TLC and the SyltDriver module are the reference; the library API (sylt::compile_with_reader_to_writer on the same files, same "
+              "relative paths) supplies the error list and the complete program - a second output of the current compiler, never a stored one",
+              "minilua stands in for `lua` (as the child process of run mode and to execute emitted programs when counting executed requires)",
+              "an error block is a printed line ending in <source file>:<line>; wording and stream (stdout/stderr) are free",
+              "unwritable FILE = parent directory missing, an existing directory, or /dev/full (all root-proof); a panic message that names the "
+              "failure counts as the printed error unless C20_STRICT_PANIC=1",
+              "`-o -` into an unwritable stdout: only rejected programs have a required status (C20_STRICT_STDOUT=1 requires non-zero for all)",
+              "M of --require is spelled without a .lua suffix; --dump-tree, -v, --help and a missing file argument are outside the property")
+    rc = verdicts.finish()
+    ev.violations = len(verdicts.violations)
+    ev.write()
+    return rc
